@@ -129,7 +129,7 @@ class DecoderChunking(Scenario):
     pid = "C01"
     name = "c01_decoder_chunking"
     level = "fault_enumeration"
-    cases = {"quick": 6000, "thorough": 120000}
+    cases = {"quick": 4000, "thorough": 120000}
     chunk = 100
     real = "werkzeug.sansio.multipart.MultipartDecoder (receive_data / next_event)"
     stubs = "arrival schedule of the body (cut offsets), the body renderer"
@@ -253,7 +253,7 @@ class ParserBuffer(Scenario):
     pid = "C01"
     name = "c01_parser_buffer"
     level = "fault_enumeration"
-    cases = {"quick": 4000, "thorough": 80000}
+    cases = {"quick": 3000, "thorough": 80000}
     chunk = 100
     real = "werkzeug.formparser.MultiPartParser.parse, _chunk_iter, MultipartDecoder, FileStorage, default_stream_factory"
     stubs = "the input stream (SimStream with tape-chosen short reads), the body renderer"
